@@ -73,6 +73,14 @@ def wellformed_ob(prog, cls, ctx):
                 bad.append(f"{fld} has leading size {v.shape[0]} instead of N (one component per observation)")
         if bad:
             raise Refuted("returned factor is not a batch of N components: " + "; ".join(bad), anchor)
+        # the returned batch can be sliced like any other factor: every field is taken with the same index array
+        Rn = sym("Rn")
+        idx = build.indices("idx", Rn)
+        sl = I.call_method(fac, "slice", [idx])
+        for fld in ("Lambda", "nu", "ln_beta"):
+            dd = nf.diff(sl.f[fld], nf.gather_axis(fac.f[fld], 0, "idx", Rn), what=f"set_y(y).slice(idx).{fld}")
+            if dd:
+                raise Refuted(f"set_y(y).slice(idx): field {fld} is not the observation-wise selection: {dd[:2]}", f"gaussian_toolbox/factor.py::ConjugateFactor.slice")
         # product() over the batch is the joint likelihood of all observations
         prod = I.call_method(fac, "product", [])
         x = build.points("x", sym("Nx"), Dx)
